@@ -488,8 +488,9 @@ def check_binding(F, struct, spec, b, classes):
             mr = symex.evaluate(F, mf) if mf else None
             ctx.__dict__["_mean_field"] = mr["ret"][1].split(".")[-1] if mr and mr["ret"][0] == "pre" else "m"
         want = fspec(ctx)
-        ret = normalise_steps(F, r["ret"])
-        heap = {k: normalise_steps(F, v) for k, v in r["heap"].items() if k.startswith("self")}
+        import typestate
+        ret = typestate.canon_wrap(F, struct, normalise_steps(F, r["ret"]))
+        heap = {k: typestate.canon_wrap(F, struct, normalise_steps(F, v)) for k, v in r["heap"].items() if k.startswith("self")}
         wsteps = [normalise_steps(F, s) for s in ctx.steps]
         # outputs
         if isinstance(want["out"], dict):
